@@ -411,6 +411,40 @@ def _book_lists(md):
     return out
 
 
+PROVIDER_CTORS = {"try_new_num_formatter": "FixedDecimalFormatter::try_newlocale,options", "try_new_date_formatter": "DateFormatter::try_new_with_lengthlocale,length",
+                  "try_new_time_formatter": "TimeFormatter::try_new_with_lengthlocale,length", "try_new_datetime_formatter": "DateTimeFormatter::try_newlocale,options",
+                  "try_new_and_list_formatter": "ListFormatter::try_new_and_with_lengthlocale,style", "try_new_or_list_formatter": "ListFormatter::try_new_or_with_lengthlocale,style",
+                  "try_new_unit_list_formatter": "ListFormatter::try_new_unit_with_lengthlocale,style", "try_new_plural_rules": "PluralRules::try_newlocale,rule_type",
+                  "try_new_currency_formatter": "CurrencyFormatter::try_newlocale,options"}
+
+
+def provider_ctors(ctx, prog, r, rid, want=None):
+    """the data-provider methods: with compiled data the ICU4X constructor of the same kind called with the method's own (locale, options)
+    - read off the MIR return summary, so that how it is written does not matter -; with a custom provider the call is delegated unchanged
+    (that impl is not compiled in the analysed configuration: its source is compared)"""
+    from rules.common import msum
+    from astlib import show
+    from rules.common import flatp
+    RT_ = "leptos_i18n/src/macro_helpers/formatting/"
+    want = want or PROVIDER_CTORS
+    n = 0
+    for name, w in want.items():
+        ctor = w.split("locale,")[0]
+        got = msum(prog, r"BakedDataProvider as .*IcuDataProvider>::%s$" % name)
+        fns = [f for f in ctx.ast.fns_named(RT_ + "mod.rs", name) if f.body is not None and f.impl_trait]
+        bodies = sorted(flatp(show(f.body)).strip("{}") for f in fns)
+        deleg = "self.get_provider.%slocale,%s" % (name, w.rsplit(",", 1)[1])
+        if len(got) == 1 and got[0][1] == "%s(p2, p3)" % ctor and not got[0][2] and deleg in bodies and len(bodies) == 2:
+            n += 1
+        elif len(got) != 1 or got[0][1] != "%s(p2, p3)" % ctor or got[0][2]:
+            r.viol("%s:BakedDataProvider::%s" % (rid, name), "with compiled data the method computes `%s`%s, expected `%s(locale, options)` on its own parameters: the formatter / rules "
+                   "built are not the ones of the locale (and options) asked for" % (got[0][1] if got else None, (" with effects %s" % got[0][2]) if got and got[0][2] else "", ctor), file=RT_ + "mod.rs")
+        else:
+            r.viol("%s:BakedDataProvider::%s" % (rid, name), "provider method bodies are %s (the custom-provider impl must delegate `%s`)" % (bodies, deleg), file=RT_ + "mod.rs")
+    return n
+
+
+
 def r3_tables(ctx, prog):
     r = Rule("C18.R3", "option tables agree from the book to ICU4X", "`select the documented formatter and options - defaults for "
              "omitted or unrecognised arguments, insensitive to surrounding whitespace`", floor=40)
@@ -897,14 +931,7 @@ def _r3_runtime(r, ctx, prog):
             "try_new_and_list_formatter": "ListFormatter::try_new_and_with_lengthlocale,style", "try_new_or_list_formatter": "ListFormatter::try_new_or_with_lengthlocale,style",
             "try_new_unit_list_formatter": "ListFormatter::try_new_unit_with_lengthlocale,style", "try_new_plural_rules": "PluralRules::try_newlocale,rule_type",
             "try_new_currency_formatter": "CurrencyFormatter::try_newlocale,options"}
-    n = 0
-    for name, w in want.items():
-        fns = [f for f in ast.fns_named(RT + "mod.rs", name) if f.body is not None and f.impl_trait]
-        bodies = sorted(flatp(show(f.body)).strip("{}") for f in fns)
-        if bodies == sorted([w, "self.get_provider.%slocale,%s" % (name, w.rsplit(",", 1)[1])]):
-            n += 1
-        else:
-            r.viol("R3:BakedDataProvider::" + name, "provider method bodies are %s" % bodies, file=RT + "mod.rs")
+    n = provider_ctors(ctx, prog, r, "R3", want)
     if n == len(want):
         r.inst("BakedDataProvider", "%d constructors: compiled data -> the ICU4X constructor of the same kind; custom provider -> delegated unchanged" % n)
     # option conversions inside the getters
